@@ -41,7 +41,7 @@ def _bag_args(rng):
     return rng.choice([0, 1, 3, 4, 5, 7]), rng.choice([0, 1, 3, 9, 20, 1000])
 
 def gen_vec(rng, n_ops, elem=None, cont="vec", small_n=None):
-    elem = elem or rng.choice(ELEMS + ["a64", "bag"] + (["dbl", "pod"] if cont == "vec" else []))
+    elem = elem or rng.choice(ELEMS + ["a64", "bag", "cur", "cur", "vi", "pm"] + (["dbl", "pod"] if cont == "vec" else []))
     copy_ok = elem != "mo"
     hdr = "type %s %s" % (cont, elem) + (" %d" % small_n if cont == "sv" else "")
     sim = _VecSim(small_n if cont == "sv" else None)
@@ -74,7 +74,9 @@ def gen_vec(rng, n_ops, elem=None, cont="vec", small_n=None):
             sim.size[r] -= 1
         elif k == "resize":
             n = rng.choice(sim.targets(r))
-            if elem == "bag" and rng.random() < 0.4:
+            if elem in ("vi", "pm") and rng.random() < 0.8:
+                lines.append("resize %d %d" % (r, n))          # value-initialisation of the new elements
+            elif elem == "bag" and rng.random() < 0.4:
                 lines.append("resize2 %d %d %d %d" % ((r, n) + _bag_args(rng)))
             elif copy_ok and rng.random() < 0.5:
                 lines.append("resizev %d %d %d" % (r, n, _val_for(rng, elem)))
@@ -125,7 +127,7 @@ def gen_sv(rng, n_ops, elem=None):
     return gen_vec(rng, n_ops, elem, "sv", rng.choice([2, 4, 4]))
 
 def gen_dyn(rng, n_ops, elem=None):
-    elem = elem or rng.choice(ELEMS)
+    elem = elem or rng.choice(ELEMS + ["cur", "vi", "vi", "pm", "pm"])
     copy_ok = elem != "mo"
     lines = ["type dyn %s" % elem]
     size = [0, 0, 0]
@@ -156,7 +158,7 @@ def gen_dyn(rng, n_ops, elem=None):
     return lines
 
 def gen_stack(rng, n_ops, elem=None):
-    elem = elem or rng.choice(ELEMS + ["bag"])
+    elem = elem or rng.choice(ELEMS + ["bag", "cur"])
     lines = ["type stack %s" % elem]
     size = 0
     bias = rng.choice([0.5, 0.65, 0.8])
@@ -309,6 +311,20 @@ def corpus():
     cs.append(("corpus-eq-double", ["type vec dbl", "push 0 0", "push 1 1", "eq 0 1", "push 0 2", "assign 1 0", "eq 0 1", "eq 1 0", "eq 0 0",
                                     "clear 0", "clear 1", "push 0 3", "push 1 4", "eq 0 1", "push 2 7", "assign 0 2", "eq 0 2"]))
     cs.append(("corpus-eq-pod", ["type vec pod", "push 0 5", "push 1 6", "eq 0 1", "push 0 9", "push 1 13", "eq 0 1", "assign 2 0", "eq 2 0", "push 2 1", "eq 2 0"]))
+    # trivially destructible element with user-provided copy/move (self pointer): every relocation must go through the constructors
+    cs.append(("corpus-cursor-vec", ["type vec cur"] + ["push 0 %d" % i for i in range(1, 8)] + ["idx 0 0", "assign 1 0", "massign 2 1", "swap 0 2", "resize 2 20", "eq 0 2"]))
+    cs.append(("corpus-cursor-sv", ["type sv cur 2", "push 0 1", "push 0 2", "push 1 7", "swap 0 1", "push 0 3", "push 0 4", "mctor 2 0", "cctor 1 2", "resize 1 9", "idx 1 0"]))
+    cs.append(("corpus-cursor-stack", ["type stack cur"] + ["push %d" % i for i in range(1, 12)] + ["top", "pop", "top"]))
+    cs.append(("corpus-cursor-dyn", ["type dyn cur", "make 0 3", "set 0 1 5", "assign 1 0", "mctor 2 1", "swap 0 2", "idx 0 1"]))
+    # value-initialisation (fresh blocks hold 0xA5 junk): members without initialisers are zero/null, as in std::vector<T>(n)
+    cs.append(("corpus-valueinit-dyn-vi", ["type dyn vi", "make 0 3", "idx 0 0", "idx 0 2", "make 1 5", "assign 0 1", "make 2 1"]))
+    cs.append(("corpus-valueinit-dyn-pm", ["type dyn pm", "make 0 3", "idx 0 0", "make 1 2", "swap 0 1", "make 2 4"]))
+    cs.append(("corpus-valueinit-resize", ["type vec vi", "push 0 3", "resize 0 6", "idx 0 5", "resize 0 1", "resize 0 12", "idx 0 11"]))
+    cs.append(("corpus-valueinit-resize-sv", ["type sv pm 2", "resize 0 2", "idx 0 1", "resize 0 7", "idx 0 6", "push 1 4", "resize 1 2"]))
+    # a move-constructed container keeps working on a live allocator handle (grow past N, take over a heap block, destroy)
+    cs.append(("corpus-mctor-allocator-sv", ["type sv tv 2", "push 0 1", "mctor 1 0", "push 1 2", "push 1 3", "push 1 4", "push 0 5", "push 0 6", "push 0 7", "mctor 2 0", "push 2 8", "pop 2"]))
+    cs.append(("corpus-mctor-allocator-vec", ["type vec tv", "push 0 1", "mctor 1 0", "push 1 2", "push 1 3", "push 0 4", "massign 2 1", "push 2 5", "push 2 6", "push 2 7"]))
+    cs.append(("corpus-mctor-allocator-dyn", ["type dyn tv", "make 0 2", "mctor 1 0", "make 1 3", "make 0 1", "massign 2 1", "make 2 2"]))
     # forwarded constructor arguments: emplace_back(n, x) / resize(k, n, x) / stack::emplace(n, x) store T(n, x), not T{n, x}
     cs.append(("corpus-emplace-args-vec", ["type vec bag", "emplace2 0 3 9", "emplace2 0 0 5", "resize2 0 4 5 1", "idx 0 0", "idx 0 3", "emplace2 1 7 1000", "swap 0 1"]))
     cs.append(("corpus-emplace-args-sv", ["type sv bag 2", "emplace2 0 3 9", "emplace2 0 4 1", "emplace2 0 5 20", "resize2 0 7 1 3", "back 0", "mctor 1 0", "emplace2 1 3 3"]))
